@@ -4,7 +4,7 @@ from mc import core, det, domains, sse
 PROPERTY = 'C02'
 ENGINE = 'E1 bounded-exhaustive enumeration of (scheme, configuration point, profile) x adversarially close absent keywords'
 LEVEL = 'model_checking'
-DIRECTED_ADDITIONS = 'NUL-prefixed stored/random keywords (known finding for SSE-1/SSE-2), keywords of a second database under the same key, KiB keywords'      # members added during the seeded-change campaign (DESIGN 7); counted under their own vacuity counters
+DIRECTED_ADDITIONS = 'the whole universe of one-byte and two-byte keywords against databases of such keywords, NUL-prefixed stored/random keywords (known finding for SSE-1/SSE-2), keywords of a second database under the same key, KiB keywords'      # members added during the seeded-change campaign (DESIGN 7); counted under their own vacuity counters
 
 CHUNK = 40
 
@@ -56,7 +56,66 @@ def units(tier, seed):
             n = len(case_list(name, label, cfg, tier))
             for k in range(0, n, CHUNK):
                 us.append(('%s/%s/%d' % (name, label, k), {'scheme': name, 'label': label, 'cfg': cfg, 'lo': k, 'hi': k + CHUNK}))
+    for name in sse.SCHEMES:
+        # a whole keyword universe: every one-byte and every two-byte keyword is searched in databases of such keywords
+        us.append(('universe/%s/1' % name, {'kind': 'universe', 'scheme': name, 'width': 1, 'rounds': 4 if tier == 'quick' else 12}))
+        if tier != 'quick' or not name.startswith('CGKO06'):
+            us.append(('universe/%s/2' % name, {'kind': 'universe', 'scheme': name, 'width': 2, 'rounds': 1 if tier == 'quick' else 2}))
     return us
+
+
+def run_universe(r, seed, name, width, rounds, only_round=None):
+    import itertools
+    cfg = sse.base_cfg(name)
+    idsize = cfg.get('param_identifier_size', 8)
+    L = sse.loader(name)
+    universe = [bytes(t) for t in itertools.product(range(256), repeat=width)]
+    for rnd in range(rounds):
+        if only_round is not None and rnd != only_round:
+            continue
+        g = det.rng(seed, 'c02-universe', name, width, rnd)
+        profile = [[2, 2, 1], [3, 1, 1, 1], [1, 1, 1], [4, 2, 3, 1, 1]][rnd % 4]            # totals 5, 6, 3, 11: never a power of two
+        kws = g.sample(universe, len(profile))
+        db = {w: [g.randbytes(idsize) for _ in range(n)] for w, n in zip(kws, profile)}
+        case = {'scheme': name, 'universe_width': width, 'round': rnd, 'profile': profile}
+        core.note_case(case)
+        det.seed_case(seed, PROPERTY, 'universe', name, width, rnd)
+        r['states'] += 1
+        try:
+            scheme = L.SSEScheme(sse.finalize_cfg(name, cfg, db))
+            key = scheme.KeyGen()
+            edb = scheme.EDBSetup(key, db)
+            r['transitions'] += 2
+        except Exception as e:
+            r.count('setup-raises (C01\'s subject, skipped here)')
+            continue
+        r.count('keyword-universes')
+        bad = 0
+        for w in universe:
+            if w in db:
+                continue
+            r['evaluations'] += 1
+            r['nontrivial'] += 1
+            r['transitions'] += 2
+            try:
+                got = scheme.Search(edb, scheme.TokenGen(key, w)).get_result_list()
+                n = len(got)
+            except Exception as e:
+                r.v(PROPERTY, name, 'search-raises', 'universe:%s:%s' % (core.exc_site(e), type(e).__name__), dict(case, keyword=w), 'empty result, no exception', core.exc_text(e))
+                bad += 1
+                if bad >= 3:
+                    break
+                continue
+            if n != 0:
+                r.v(PROPERTY, name, 'nonempty', 'absent-keyword-of-the-same-length/universe-%d' % width, dict(case, keyword=w), 'empty result', got)
+                r.outcome('nonempty-in-universe')
+                bad += 1
+                if bad >= 3:
+                    break
+        r.count('universe-absent-keywords', len(universe) - len(db))
+        if not bad:
+            r.outcome('empty/universe-%d' % width)
+    r.sample({'scheme': name, 'keyword_universe': 'all %d-byte keywords' % width, 'setups': rounds})
 
 
 def run_case(r, seed, name, label, cfg, profile, kwlen, relation, only=None, cache=None):
@@ -130,6 +189,10 @@ def run_case(r, seed, name, label, cfg, profile, kwlen, relation, only=None, cac
 
 def run_unit(p, tier, seed):
     r = core.Result()
+    if p.get('kind') == 'universe':
+        run_universe(r, seed, p['scheme'], p['width'], p['rounds'])
+        det.restore()
+        return r
     name, label, cfg = p['scheme'], p['label'], p['cfg']
     cache = {}
     for i, (profile, kwlen, relation) in enumerate(case_list(name, label, cfg, tier)[p['lo']:p['hi']]):
@@ -142,6 +205,10 @@ def run_unit(p, tier, seed):
 
 
 def replay(case, seed):
+    if 'universe_width' in case:
+        r = core.Result()
+        run_universe(r, seed, case['scheme'], case['universe_width'], case['round'] + 1, only_round=case['round'])
+        return [v for v in r['violations'] if core.dec(v['case']).get('keyword') == case.get('keyword')] or r['violations']
     u = case.get('unit')
     if u:
         full = run_unit({'scheme': case['scheme'], 'label': case['label'], 'cfg': case['cfg'], 'lo': u['lo'], 'hi': u['lo'] + u['index'] + 1}, u['tier'], seed)
@@ -154,6 +221,6 @@ def replay(case, seed):
 ENV_VARIANTS = [{'name': 'python-O', 'flags': ['-O']}, {'name': 'home-unwritable', 'env': {'VERIF_HOME_UNWRITABLE': '1'}}]
 
 def variant_units(tier, seed, name):
-    pred = lambda uid, p: uid.endswith('/base/0')
+    pred = lambda uid, p: uid.endswith('/base/0') and p.get('kind') != 'universe' 
     return [u for u in units('quick', seed) if pred(u[0], u[1])]
 
